@@ -138,14 +138,14 @@ char *verif_strdup(const char *s);
                            g.e.last_fault == __CPROVER_loop_entry(g.e.last_fault) && \
                            g.e.err >= 0 && g.e.err < 134 && g.e.os_calls >= __CPROVER_loop_entry(g.e.os_calls)) \
   __CPROVER_decreases(max_fd + 1 - (long) i)
-/* reproc_drain: the text of the invariant (VERIF_DRAIN_INV, over the harness's
-   sink-protocol monitor) lives in harness/h_drain.c; no variant: termination of
-   drain depends on the child */
-#ifdef VERIF_DRAIN_INV
-#define REPROC_VERIF_LOOP_drain                                                \
-  __CPROVER_assigns(r, __CPROVER_object_whole(buffer), __CPROVER_object_whole(process), g, verif_mon) \
-  __CPROVER_loop_invariant(VERIF_DRAIN_INV)
+/* reproc_drain: the loop invariant is checked by induction written out in C
+   (harness/h_drain.c: verif_drain_head asserts it on entry, havocs everything
+   the loop may change, assumes it, and after one arbitrary iteration asserts it
+   again): DFCC's loop-contract instrumentation of this loop did not finish.
+   No variant: termination of drain depends on the child. */
 #endif
+#if defined(VERIF_DRAIN_INDUCTION) && !defined(VERIF_NATIVE)
+#define REPROC_VERIF_LOOP_drain if (verif_drain_head(&r, buffer, process))
 #endif
 #ifndef REPROC_VERIF_LOOP_setup_input
 #define REPROC_VERIF_LOOP_setup_input
